@@ -355,7 +355,7 @@ func (r *Runner) CrashRestart(c Choice) {
 	r.St = ns
 	r.ops = map[int]*opState{}
 	r.g1pc, r.g1final, r.g1park, r.iterShutdown, r.cancelled, r.finalBegun = "idle", false, nil, false, false, false
-	r.swOwner, r.swStage, r.swPark, r.g2retry, r.g1queued = 0, 0, nil, nil, false
+	r.swOwner, r.swStage, r.swPark, r.g2retry, r.g1queued, r.g2queued = 0, 0, nil, nil, false, false
 	r.commitInProgress, r.dirtySinceCommitStart, r.CommitClean = false, false, false
 	if r.Model != nil {
 		r.record(line, restoredLine(ns), r.model(c.modelLine()))
